@@ -449,7 +449,7 @@ def gen_collect(rng, tier, np):
                          for s in range(np)]))
         # reductions: values small enough for exact sums in every type (doubles are integer valued)
         ty = rng.choice(['int', 'long', 'dbl', 'int', 'long', 'dbl', 'byte', 'unk'])
-        n = rng.choice([0, 1, 1, 2, 5, 17])
+        n = rng.choice([0, 1, 1, 2, 5, 17, 41])
         lim = 10 if ty == 'byte' else (1 << 40 if ty in ('long', 'dbl') and rng.random() < 0.3 else 100000)
         lo = 0 if ty == 'byte' else -lim
         vals = [[rng.randint(lo, lim) for _ in range(n)] for _ in range(np)]
@@ -460,7 +460,7 @@ def gen_collect(rng, tier, np):
         pool = [rng.randint(lo, 200) for _ in range(3)]
         ops.append(line(rng.choice(['min', 'max']), np, [ty],
                         [[num_tok(ty, rng.choice(pool + [rng.randint(lo, 200)]))] for _ in range(np)]))
-        n = rng.choice([0, 1, 2, 6])
+        n = rng.choice([0, 1, 2, 6, 11, 40])
         pool = [rng.randint(-50, 50) + 0.25 for _ in range(2)]
         ops.append(line('allminwho', np, [n], [[dhex(rng.choice(pool + [rng.randint(-50, 50) + 0.25])) for _ in range(n)]
                                                 for _ in range(np)]))
